@@ -219,6 +219,32 @@ fn typed_leaf(g: &mut Gen) -> Cq {
         _ => g.leaf(),
     }
 }
+/// the same query with textually repeated members of pure AND / OR chains removed (x OR x = x, x AND x = x):
+/// used as a metamorphic probe of F164 on the implementation itself
+fn dedup_chains(c: &Cq) -> Cq {
+    match c {
+        Cq::Paren(x) => Cq::Paren(Box::new(dedup_chains(x))),
+        Cq::Boost(x, i, f) => Cq::Boost(Box::new(dedup_chains(x)), i.clone(), f.clone()),
+        Cq::Seq(lead, o1, x1, rest, trail) => {
+            let x1d = dedup_chains(x1);
+            let restd: Vec<_> = rest.iter().map(|(a, b, c2, d, x)| (a.clone(), *b, c2.clone(), *d, dedup_chains(x))).collect();
+            let pure = o1.is_none() && !restd.is_empty() && restd.iter().all(|r| r.3.is_none() && r.1.is_some() && r.1 == restd[0].1);
+            if !pure { return Cq::Seq(lead.clone(), *o1, Box::new(x1d), restd, trail.clone()); }
+            let mut seen = vec![x1d.text()];
+            let mut kept = vec![];
+            for r in restd { let t = r.4.text(); if !seen.contains(&t) { seen.push(t); kept.push(r); } }
+            Cq::Seq(lead.clone(), *o1, Box::new(x1d), kept, trail.clone())
+        }
+        other => other.clone(),
+    }
+}
+/// directed: `(foo OR foo) tag:a` (meaningful with conjunction by default) / `a (b AND b)` (disjunction by default)
+fn directed_repeated_member(conj: bool) -> Cq {
+    let w = |t: &str| Cq::Lit(None, CLeaf::Word(t.to_string()));
+    let grp = |a: &str, and: bool| Cq::Paren(Box::new(Cq::Seq(String::new(), None, Box::new(w(a)), vec![(" ".into(), Some(and), String::new(), None, w(a))], String::new())));
+    if conj { Cq::Seq(String::new(), None, Box::new(grp("foo", false)), vec![(" ".into(), None, String::new(), None, Cq::Lit(Some(("tag".into(), String::new())), CLeaf::Word("a".into())))], String::new()) }
+    else { Cq::Seq(String::new(), None, Box::new(w("a")), vec![(" ".into(), None, String::new(), None, grp("b", true))], String::new()) }
+}
 fn typed_atom(g: &mut Gen, depth: u32) -> Cq {
     if depth > 0 && g.rng.chance(1, 4) { return Cq::Paren(Box::new(typed_seq(g, depth - 1, false))); }
     let l = typed_leaf(g);
@@ -338,8 +364,8 @@ fn main() {
     }
 
     // ---------------- (b) QueryParser on a typed schema: Count vs the documented meaning ----------------
-    let n_corp = if thorough { 6 } else { 2 };
-    let n_tq = if thorough { 500 } else { 60 };
+    let n_corp = if thorough { 5 } else { 2 };
+    let n_tq = if thorough { 300 } else { 60 };
     for ci in 0..n_corp {
         let corpus = build_corpus(&mut rng, if thorough { 40 } else { 24 });
         let schema = corpus.index.schema();
@@ -350,7 +376,7 @@ fn main() {
             let conj = qi % 2 == 1;
             let mut qp = QueryParser::for_index(&corpus.index, defaults.clone());
             if conj { qp.set_conjunction_by_default(); }
-            let c = { let mut g = Gen { rng: &mut rng, mode: Mode::Typed, loose_sep: false }; typed_seq(&mut g, (qi % 3) as u32, true) };
+            let c = if qi < 2 { directed_repeated_member(qi == 1) } else { let mut g = Gen { rng: &mut rng, mode: Mode::Typed, loose_sep: false }; typed_seq(&mut g, (qi % 3) as u32, true) };
             let s = c.text();
             cx.out.count("typed_queries", 1);
             let dflt = if conj { "Must" } else { "Should" };
@@ -367,7 +393,19 @@ fn main() {
                     cx.out.count("typed_ok", 1);
                     cx.out.count(if *cnt == 0 { "typed_count_zero" } else if *cnt == corpus.n { "typed_count_all" } else { "typed_count_some" }, 1);
                     // spec: the number of matching documents is the one the documented meaning prescribes
-                    cx.out.coq_case("spec", format!("wf {c} && match cq_count {dflt} {corpus} {c} with Some n => N.eqb n {cnt} | None => false end", c = c.coq(), dflt = dflt, corpus = corpus.coq, cnt = cnt), d.clone(), true);
+                    // (F164: a group that deduplicates to a single Should / Must child loses the default occur of its position; classified in Coq)
+                    cx.out.coq_case("spec", format!("wf {c} && (match cq_count {dflt} {corpus} {c} with Some n => N.eqb n {cnt} | None => false end || F164_ast (norm {c}))", c = c.coq(), dflt = dflt, corpus = corpus.coq, cnt = cnt), d.clone(), true);
+                    let c2 = dedup_chains(&c);
+                    if c2.text() != s {
+                        cx.out.count("typed_with_repeated_chain_member", 1);
+                        let s2 = c2.text();
+                        if let Ok(Ok(Ok(cnt2))) = guarded(|| qp.parse_query(&s2).map(|q| searcher.search(&q, &Count))) {
+                            if cnt2 != *cnt {
+                                cx.out.coq_case("known:F164", format!("F164_ast (norm {})", c.coq()),
+                                    json!({"what": "x OR x / x AND x inside a group changes the result", "query": show(&s), "count": cnt, "equivalent_query": show(&s2), "equivalent_count": cnt2, "conjunction_by_default": conj}), true);
+                            }
+                        }
+                    }
                     // tie: the same number through the model of the grammar + logical layer
                     cx.out.coq_case("tie", format!("match parse_ref {s} with Ok u => N.eqb (count_spec {dflt} {corpus} u) {cnt} | _ => false end", s = cstr(&s), dflt = dflt, corpus = corpus.coq, cnt = cnt), d.clone(), true);
                     if grammar_lenient_agrees { cx.out.spec_checked(matches!(lc, Ok(l) if *l == *cnt) && *nerr == 0, json!({"what": "QueryParser lenient differs from strict", "query": show(&s), "strict": cnt, "lenient": format!("{:?}", lc), "errors": nerr})); }
@@ -381,7 +419,7 @@ fn main() {
             }
         }
         // phrases through analyzers that remove words (positions kept by the index), with and without slop / prefix
-        let n_ph = if thorough { 250 } else { 45 };
+        let n_ph = if thorough { 120 } else { 45 };
         for qi in 0..n_ph {
             let Some((c, kind, mirror_expect)) = (if qi == 0 { Some(directed_prefix_gap(&corpus)) } else { corpus_phrase(&mut rng, &corpus) }) else { continue };
             let conj = qi % 2 == 1;
